@@ -134,17 +134,21 @@ def showPool (s : Pool) : String :=
   "p=" ++ ids p ++ ";s=" ++ (if sp.isEmpty then "-" else joinWith "," sp) ++
   ";o=" ++ (if o.isEmpty then "-" else joinWith "," o) ++ ";b=" ++ (if bp.isEmpty then "-" else joinWith "," bp)
 
-/-- orphans that share a redeemed outpoint with another orphan: which of them Go's map iteration
-tries first is not observable, so both sides stop comparing (`nd`) once such an orphan leaves the
-orphan pool inside an operation that runs `processOrphans`. -/
-def contested (s : Pool) : List Nat :=
-  (s.byPrev.filter (fun p => s.byPrev.any (fun q => q.1 = p.1 && q.2.id ≠ p.2.id))).map (·.2.id)
+/-- Which of several orphans redeeming the same outpoint Go's map iteration tries first is not
+observable.  Both sides stop comparing (`nd`) when, inside an operation that runs `processOrphans`,
+an orphan leaves the orphan pool that shared a redeemed outpoint with another orphan AND that outpoint
+belongs to a transaction `processOrphans` walked (the operation's own transaction(s) or anything that
+entered the pool during the operation). -/
+def processedIds (before after : Pool) : Op → List Nat
+  | .process _ _ _ _ _ _ => (after.pool.map (·.tx.id)).filter (fun id => !before.inPool id)
+  | .processOrphans t _ => t.id :: (after.pool.map (·.tx.id)).filter (fun id => !before.inPool id)
+  | .connect b _ => b.txs.map (·.id) ++ (after.pool.map (·.tx.id)).filter (fun id => !before.inPool id)
+  | _ => []
 
-def runsOrphans : Op → Bool
-  | .process .. => true
-  | .processOrphans .. => true
-  | .connect .. => true
-  | _ => false
+def ambiguous (before after : Pool) (o : Op) : Bool :=
+  let walked := processedIds before after o
+  before.byPrev.any (fun p => walked.contains p.1.txid &&
+    before.byPrev.any (fun q => q.1 = p.1 && q.2.id ≠ p.2.id) && !after.inOrphans p.2.id)
 
 def runCmds (pol : Policy) : State → List Cmd → List String
   | _, [] => []
@@ -154,7 +158,7 @@ def runCmds (pol : Policy) : State → List Cmd → List String
     ((if st.pool.pool.all (·.fresh) then "t:1;" else "t:?;") ++ showPool st.pool) :: runCmds pol st rest
   | st, .op o :: rest =>
     let r := step pol st o
-    if runsOrphans o && (contested st.pool).any (fun id => !r.1.pool.inOrphans id) then ["nd"]
+    if ambiguous st.pool r.1.pool o then ["nd"]
     else (showResult r.2 ++ ";" ++ showPool r.1.pool) :: runCmds pol r.1 rest
 
 def handle : List String → String
